@@ -292,6 +292,42 @@ def make_mvcapa(n, p, m, M, mode="c03", creg="general", preg="sparse"):
     return Harness(run, base, name=f"mvcapa {info}")
 
 
+def make_mvcapa_named(n, p, m, M, cpen="combined", ppen="sparse", mode="c03"):
+    """MVCAPA with the *named* penalty families and symbolic scales: checks run_mvcapa's plumbing
+    (which family, which scale, which parameter count goes where).  The oracle's penalties come from
+    calling the family functions directly (their formulas are the subject of C15)."""
+    cs, ps = z3.Real("cscale"), z3.Real("pscale")
+    lo = z3.RealVal(Fraction(1, 1000))
+    base = [z3.Or(cs == 0, cs >= lo), z3.Or(ps == 0, ps >= lo)] + table_assumptions(n, p, m, min(M, n))
+    X = dummy_X(n, p)
+    info = dict(det="MVCAPA", n=n, p=p, m=m, M=M, cpen=cpen, ppen=ppen)
+
+    def run(eng, acc):
+        from skchange.anomaly_detectors import MVCAPA
+        from skchange.anomaly_detectors.mvcapa import capa_penalty_factory
+        try:
+            det = MVCAPA(TableSaving(p=p), TableSaving(p=p, tag="P"), collective_penalty=cpen, collective_penalty_scale=SymReal(cs),
+                         point_penalty=ppen, point_penalty_scale=SymReal(ps), min_segment_length=m, max_segment_length=M)
+            det.fit(X)
+            out = det.predict(X)
+            scores = [rv(v) for v in det.scores.values]
+            ca, cb = capa_penalty_factory(cpen)(n, p, 1, scale=SymReal(cs))
+            pa, pb = capa_penalty_factory(ppen)(n, p, 1, scale=SymReal(ps))
+        except Exception as ex:
+            acc.concrete("runs_to_completion", False, dict(info, exception=f"{type(ex).__name__}: {ex}"[:200]), eng=eng)
+            return
+        acc.concrete("runs_to_completion", True)
+        ok = check_anomalies(acc, out, n, info, "MVCAPA", eng=eng, min_len=m, max_len=M, point_ok=True, p=p)
+        if mode == "c04":
+            return
+        anoms = _split_output(out, m)
+        orc = Oracle(n, p, m, min(M, n), rv(ca), [rv(b) for b in np.asarray(cb).ravel()], rv(pa), [rv(b) for b in np.asarray(pb).ravel()])
+        _optimality(eng, acc, orc, scores, anoms, n, m, M, info, ok)
+        acc.sample(dict(info, anomalies=anoms))
+
+    return Harness(run, base, name=f"mvcapa named {info}")
+
+
 # ----------------------------------------------------------------------------------
 # native runs (witnesses and replays)
 # ----------------------------------------------------------------------------------
@@ -310,6 +346,16 @@ def native_run(info, env, ignore_points=False):
             det.fit(X)
             out = det.predict(X)
             pens = (float(det.collective_penalty_), [], float(det.point_penalty_), [])
+        elif "cpen" in info:
+            from skchange.anomaly_detectors.mvcapa import capa_penalty_factory
+            cs_, ps_ = float(env.get("cscale", 0.0)), float(env.get("pscale", 0.0))
+            det = MVCAPA(TableSaving(p=p, values=S), TableSaving(p=p, tag="P", values=P), collective_penalty=info["cpen"], collective_penalty_scale=cs_,
+                         point_penalty=info["ppen"], point_penalty_scale=ps_, min_segment_length=m, max_segment_length=M, ignore_point_anomalies=ignore_points)
+            det.fit(X)
+            out = det.predict(X)
+            ca, cb = capa_penalty_factory(info["cpen"])(n, p, 1, scale=cs_)
+            pa, pb = capa_penalty_factory(info["ppen"])(n, p, 1, scale=ps_)
+            pens = (float(ca), [float(b) for b in cb], float(pa), [float(b) for b in pb])
         else:
             cb = [env.get(f"cbeta_{k}", 0.0) for k in range(p)]
             pb = [env.get(f"pbeta_{k}", 0.0) for k in range(p)]
@@ -392,6 +438,9 @@ def jobs(tier, mode="c03"):
         out.append(Job(Mod, "make_capa", dict(n=n, p=p, m=m, M=M, mode=mode), split=n >= 4))
     for (n, p, m, M, creg, preg) in mv:
         out.append(Job(Mod, "make_mvcapa", dict(n=n, p=p, m=m, M=M, mode=mode, creg=creg, preg=preg), split=True))
+    named = [(2, 2, "combined", "sparse")] if tier == "quick" else [(2, 2, "combined", "sparse"), (2, 2, "dense", "dense"), (2, 2, "intermediate", "combined"), (3, 2, "sparse", "sparse")]
+    for (n, p, cpen, ppen) in named:
+        out.append(Job(Mod, "make_mvcapa_named", dict(n=n, p=p, m=2, M=1000, cpen=cpen, ppen=ppen, mode=mode), split=True))
     return out
 
 
